@@ -26,7 +26,7 @@ class C03(Prop):
 
 class C04(C03):
     pid = 'C04'
-    k_fields = ['R', 'T']
+    k_fields = ['T']        # the property is about what is evaluated, in which order: the result is C03's business (a changed error value with an unchanged trace is not a C04 violation)
     rule = ('same trees as C03 with calls and variables in every operand position; compared: the sequence of variable lookups and native calls with '
             'argument values recorded by a recording Environment against the trace of the extracted interpreter; distinct = distinct (result, trace) pairs')
 
